@@ -65,7 +65,7 @@ def fields_of(cls: type) -> List[Dict[str, Any]]:
                 "alias": fi.alias,
                 "required": fi.is_required(),
                 "annotation": _resolve(fi.annotation, cls),
-                "default": None if fi.is_required() else fi.default,
+                "default": None if fi.is_required() else (fi.default_factory() if getattr(fi, "default_factory", None) is not None else fi.default),
                 "ge": ge,
                 "le": le,
             }
